@@ -169,7 +169,7 @@ def anchors():
 
 BUDGET_S = {   # estimated seconds of one TLC worker per type: (records without a long chain, records with one)
     "quick": {"rsa": (85, 6), "dsa": (30, 14), "elgamal": (16, 0), "ws": (70, 18), "ed": (14, 45), "mt": (14, 45)},
-    "thorough": {"rsa": (1000, 250), "dsa": (300, 900), "elgamal": (250, 0), "ws": (1200, 450), "ed": (220, 1000), "mt": (260, 1000)},
+    "thorough": {"rsa": (800, 200), "dsa": (250, 700), "elgamal": (220, 0), "ws": (1000, 350), "ed": (200, 750), "mt": (230, 750)},
 }
 SINGLE_SHARE = 0.7      # quick tier: the cases with at most one corruption may use this share of the budget of the records without a long chain
 HEAVY_MS = 1500
@@ -258,7 +258,8 @@ def plan_generate(ctx, rnd, cid0):
               {"what": "dsa-domain", "bits": 1024, "kid": "d1024", "corr": []}, {"what": "dsa-domain", "bits": 512, "kid": "d512", "corr": []},
               {"what": "dsa-domain", "bits": 2048, "kid": "d1024", "corr": []},
               {"what": "dsa-domain", "bits": 1024, "kid": "d1024", "corr": [rnd.choice(["g=1", "g=p-1", "g+p"])]},
-              {"what": "dsa-domain", "bits": 1024, "kid": "d1024", "corr": [rnd.choice(["q:=other prime", "q:=2q", "p+2q"])]}]
+              {"what": "dsa-domain", "bits": 1024, "kid": "d1024", "corr": [rnd.choice(["q:=other prime", "q:=2q", "p+2q"])]},
+              {"what": "dsa-domain", "bits": 1024, "kid": "d1024", "corr": [rnd.choice(["p=0", "q=0"])]}]
         g += [{"what": "elgamal", "bits": rnd.choice([161, 168, 176, 184, 192])}]
         curves = [rnd.choice(["P-192", "P-224"]), "P-256", "P-521" if ctx.seed % 4 == 1 else "P-384", "Ed25519", "Curve25519"]
         if ctx.seed % 3 == 0:                                   # the two long chains (30 s / 20 s of TLC) in one run out of three
